@@ -292,30 +292,42 @@ def inHooks (s : S) (tag i : Nat) : S :=
     s1.write i fVEL a
   else s
 
+/-- `Unit.OutProfile.cross_section`: produced by a pass (tag 1) and a rotator (tag 4), handed on otherwise -/
+def hookCS (s : S) (tag i o : Nat) (cs : List Nat) : S :=
+  if tag = 1 ∨ tag = 4 then
+    let (a, v) := s.alloc { kind := .value, content := [tag] }
+    a.write o fCS v
+  else copyField s (fallbackSrc s.h cs i) o fCS
+
+/-- `Unit.OutProfile.classifiers`: the translated producers for a pass and a rotator, a user hook (`ovr`), or handed on -/
+def hookCL (P : Producers) (s : S) (tag : Nat) (ovr : Bool) (i o : Nat) (cs : List Nat) (roll : Option Nat) : S :=
+  if tag = 1 then
+    let gcl := (roll.bind (fun r => getF s.h r fGROOVE)).bind (fun g => getF s.h g fCL)
+    let (a, c1) := runOn P.sym s gcl
+    let (b, c2) := runOn P.pass a c1
+    writeOpt b o fCL c2
+  else if tag = 4 then
+    let (a, c) := runOn P.rot s (getF s.h i fCL)
+    writeOpt a o fCL c
+  else if ovr = true then
+    let (a, v) := s.alloc { kind := .value, content := [9] }
+    a.write o fCL v
+  else copyField s (fallbackSrc s.h cs i) o fCL
+
+/-- `Unit.OutProfile.t`: a new scalar for every unit -/
+def hookT (s : S) (o : Nat) : S :=
+  let (a, x) := s.alloc { kind := .atom }
+  a.write o fT x
+
+/-- `BaseRollPass.OutProfile.technologically_orientated_cross_section`: with the default orientation the
+cross-section object itself -/
+def hookTOCS (s : S) (tag o : Nat) : S :=
+  if tag = 1 then writeOpt s o fTOCS (getF s.h o fCS) else s
+
 /-- root hooks of the out-profile, in the order of `root_hooks`:
 cross_section, classifiers, t, technologically_orientated_cross_section -/
 def outHooks (P : Producers) (s : S) (tag : Nat) (ovr : Bool) (i o : Nat) (cs : List Nat) (roll : Option Nat) : S :=
-  let s1 :=
-    if tag = 1 ∨ tag = 4 then
-      let (a, v) := s.alloc { kind := .value, content := [tag] }
-      a.write o fCS v
-    else copyField s (fallbackSrc s.h cs i) o fCS
-  let s2 :=
-    if tag = 1 then
-      let gcl := (roll.bind (fun r => getF s1.h r fGROOVE)).bind (fun g => getF s1.h g fCL)
-      let (a, c1) := runOn P.sym s1 gcl
-      let (b, c2) := runOn P.pass a c1
-      writeOpt b o fCL c2
-    else if tag = 4 then
-      let (a, c) := runOn P.rot s1 (getF s1.h i fCL)
-      writeOpt a o fCL c
-    else if ovr then
-      let (a, v) := s1.alloc { kind := .value, content := [9] }
-      a.write o fCL v
-    else copyField s1 (fallbackSrc s1.h cs i) o fCL
-  let (s3, a) := s2.alloc { kind := .atom }
-  let s4 := s3.write o fT a
-  if tag = 1 then writeOpt s4 o fTOCS (getF s4.h o fCS) else s4
+  hookTOCS (hookT (hookCL P (hookCS s tag i o cs) tag ovr i o cs roll) o) tag o
 
 def unitHooks (s : S) (u : Nat) : S :=
   let (s1, a) := s.alloc { kind := .atom }
@@ -352,30 +364,41 @@ def preProcess (f : Rec) (s : S) (u p : Nat) : S × Nat :=
     f s3 r p
   else (s, p)
 
+/-- `self.in_profile = self.InProfile(self, in_profile)` -/
+def storeIn (s : S) (u p1 : Nat) : S × Nat :=
+  let (a, i) := s.alloc (profCopy s.h .inProfile (some u) p1)
+  (a.write u fIN i, i)
+
+/-- `if not self.out_profile: self.out_profile = self.OutProfile(self, in_profile)` -/
+def ensureOut (s : S) (u p1 : Nat) : S × Nat :=
+  match getF s.h u fOUT with
+  | some o => (s, o)
+  | none =>
+    let (a, o) := s.alloc (profCopy s.h .outProfile (some u) p1)
+    (a.write u fOUT o, o)
+
+/-- `DiskElementUnit.init_solve`: `if not self._subunits: self._subunits = _SubUnitsList(self, [DiskElement …])` -/
+def ensureDisks (s : S) (u : Nat) (ob : Obj) : S :=
+  if (ob.tag = 1 ∨ ob.tag = 2) ∧ (subItems s.h u).isEmpty = true then
+    let (a, ds) := mkDisks ob.disks s u
+    let (b, l) := a.alloc { kind := .subList, weak := some u, items := ds }
+    b.write u fSUB l
+  else s
+
+/-- `BaseRollPass.init_solve`: `self.out_profile.cross_section = self.usable_cross_section` -/
+def passInit (s : S) (ob : Obj) (o : Nat) : S :=
+  if ob.tag = 1 then
+    let (a, v) := s.alloc { kind := .value, content := [7] }
+    a.write o fCS v
+  else s
+
 /-- `Unit.init_solve`, `DiskElementUnit.init_solve`, `BaseRollPass.init_solve`; returns (state, in-profile, out-profile) -/
 def initSolve (f : Rec) (s : S) (u p : Nat) : S × Nat × Nat :=
   let ob := s.h.obj u
   let (s1, p1) := preProcess f s u p
-  let (s2, i) := s1.alloc (profCopy s1.h .inProfile (some u) p1)
-  let s3 := s2.write u fIN i
-  let (s4, o) :=
-    match getF s3.h u fOUT with
-    | some o => (s3, o)
-    | none =>
-      let (a, o) := s3.alloc (profCopy s3.h .outProfile (some u) p1)
-      (a.write u fOUT o, o)
-  let s5 :=
-    if (ob.tag = 1 ∨ ob.tag = 2) ∧ (subItems s4.h u).isEmpty then
-      let (a, ds) := mkDisks ob.disks s4 u
-      let (b, l) := a.alloc { kind := .subList, weak := some u, items := ds }
-      b.write u fSUB l
-    else s4
-  let s6 :=
-    if ob.tag = 1 then
-      let (a, v) := s5.alloc { kind := .value, content := [7] }
-      a.write o fCS v
-    else s5
-  (s6, i, o)
+  let (s2, i) := storeIn s1 u p1
+  let (s3, o) := ensureOut s2 u p1
+  (passInit (ensureDisks s3 u ob) ob o, i, o)
 
 /-- `Unit.solve(in_profile)`; `f` solves a sub-unit -/
 def solveBody (P : Producers) (f : Rec) (s : S) (u p : Nat) : S × Nat :=
